@@ -132,3 +132,41 @@ M("C12-benign-merge-error-branches", "C12", "src/interrogatedb/interrogateDataba
   "          std::cerr << \"Unable to read \" << pathname << \".\\n\";\n          set_error_flag(true);",
   "          set_error_flag(true);\n          std::cerr << \"Unable to read \" << pathname << \".\\n\";",
   benign=True)
+
+# ---------------------------------------------------------------- C20
+M("C20-le-size", "C20", "src/interrogatedb/interrogateType.I",
+  "  if (n >= 0 && n < (int)_methods.size()) {", "  if (n >= 0 && n <= (int)_methods.size()) {",
+  expect="R20.1|InterrogateType::get_method")
+M("C20-other-vector", "C20", "src/interrogatedb/interrogateType.I",
+  "  if (n >= 0 && n < (int)_casts.size()) {", "  if (n >= 0 && n < (int)_methods.size()) {",
+  expect="R20.1|InterrogateType::get_cast")
+M("C20-no-lower", "C20", "src/interrogatedb/interrogateDatabase.cxx",
+  "  if (n >= 0 && n < (int)_global_elements.size()) {", "  if (n < (int)_global_elements.size()) {",
+  expect="R20.1|InterrogateDatabase::get_global_element")
+M("C20-deref-before-end-test", "C20", "src/interrogatedb/interrogateDatabase.cxx",
+  "  mi = _manifest_map.find(manifest);\n  if (mi == _manifest_map.end()) {\n    return bogus_manifest;\n  }\n  return (*mi).second;",
+  "  mi = _manifest_map.find(manifest);\n  const InterrogateManifest &r = (*mi).second;\n  if (mi == _manifest_map.end()) {\n    return bogus_manifest;\n  }\n  return r;",
+  expect="R20.2|get_manifest|deref-only-when-found")
+M("C20-uninit-scalar", "C20", "src/interrogatedb/interrogateManifest.I",
+  "  _int_value = 0;\n", "",
+  expect="R20.2|InterrogateManifest|init|_int_value")
+M("C20-revert-mid", "C20", "src/interrogatedb/interrogateDatabase.cxx",
+  "    return binary_search_wrapper_hash(mid + 1, end, wrapper_hash_name);", "    return binary_search_wrapper_hash(mid, end, wrapper_hash_name);",
+  expect="R20.3|InterrogateDatabase::binary_search_wrapper_hash")
+M("C20-drop-size-test", "C20", "src/interrogatedb/interrogateDatabase.cxx",
+  "  if (unique_name.size() < 4) {\n    return 0;\n  }\n", "",
+  expect="R20.4|InterrogateDatabase::get_wrapper_by_unique_name")
+M("C20-cstr-temporary", "C20", "src/interrogatedb/interrogate_interface.cxx",
+  "  return InterrogateDatabase::get_ptr()->get_make_seq(make_seq).get_comment().c_str();",
+  "  return std::string(InterrogateDatabase::get_ptr()->get_make_seq(make_seq).get_comment()).c_str();",
+  expect="R20.5|interrogate_make_seq_comment")
+M("C20-count-other-container", "C20", "src/interrogatedb/interrogateType.I",
+  "number_of_methods() const {\n  return _methods.size();", "number_of_methods() const {\n  return _casts.size();",
+  expect="R20.6|InterrogateType::number_of_methods")
+M("C20-benign-early-return", "C20", "src/interrogatedb/interrogateDatabase.cxx",
+  "  if (n >= 0 && n < (int)_global_manifests.size()) {\n    return _global_manifests[n];\n  }\n  return 0;",
+  "  if (n < 0 || n >= (int)_global_manifests.size()) {\n    return 0;\n  }\n  return _global_manifests[n];",
+  benign=True)
+M("C20-benign-size-guard-form", "C20", "src/interrogatedb/interrogateDatabase.cxx",
+  "  if (unique_name.size() < 4) {\n    return 0;\n  }\n", "  if (!(unique_name.length() >= 4)) {\n    return 0;\n  }\n",
+  benign=True)
